@@ -136,7 +136,7 @@ def gen(rng, idx, tier, seed):
         ref, canon = spell(form, y, mo, d, H, M, S)
         return {'mode': 'cf', 'ref': ref, 'canon': canon, 'form': form,
                 'unit': unit, 'calendar': cal, 'values': vals,
-                'dtype': dtype,
+                'dtype': dtype, 'disk': bool(idx % 7 == 1),
                 'bounds': str(rng.choice(['off', 'off', 'derived',
                                           'explicit']))}
     fs = gen_ioapi.gen_spec(rng, via='from_arrays')
@@ -163,6 +163,11 @@ def cf_tuple(t):
 
 
 def run_cf(spec, res):
+    with harness.casedir() as d, harness.handles() as h:
+        run_cf_in(spec, res, d, h)
+
+
+def run_cf_in(spec, res, d, h):
     import cftime
     import PseudoNetCDF as pnc
     units = '%s since %s' % (spec['unit'], spec['ref'])
@@ -194,7 +199,13 @@ def run_cf(spec, res):
         else:
             dt = np.diff(vals).mean()
             tovals = np.append(vals - dt / 2, vals[-1] + dt / 2)
+    if spec.get('disk'):
+        # the file saved and opened again from disk
+        g = harness.to_disk(f, d, h)
+        if g is not None:
+            f = g
     facets = ['cf', 'unit:' + spec['unit'], 'cal:%s' % cal,
+              'source:disk' if spec.get('disk') else 'source:memory',
               'dtype:' + spec.get('dtype', 'd'),
               'bounds:' + spec['bounds'], 'form:%d' % spec['form']]
     dg = digest(spec)
